@@ -451,6 +451,9 @@ class NDNApp:
             except (InterestNack, InterestTimeout, InterestCanceled, ValidationFailure) as e:
                 self.logger.error('Registration for %s failed: %s', Name.to_str(name), e.__class__.__name__)
                 return False
+            except (DecodeError, ValueError, IndexError, TypeError, struct.error):
+                self.logger.error('Registration for %s failed: malformed response', Name.to_str(name))
+                return False
 
     async def unregister(self, name: NonStrictName) -> bool:
         """
@@ -462,9 +465,12 @@ class NDNApp:
         name = Name.normalize(name)
         del self._prefix_tree[name]
         try:
-            await self.express_interest(make_command('rib', 'unregister', self.face, name=name), lifetime=1000)
-            return True
+            _, _, reply = await self.express_interest(
+                make_command('rib', 'unregister', self.face, name=name), lifetime=1000)
+            return parse_response(reply)['status_code'] == 200
         except (InterestNack, InterestTimeout, InterestCanceled, ValidationFailure):
+            return False
+        except (DecodeError, ValueError, IndexError, TypeError, struct.error):
             return False
 
     def set_interest_filter(self, name: NonStrictName, func: Route,
